@@ -139,7 +139,10 @@ def candidates(g, tier, img):
     if dim == 3 and k != "cyl":
         modes = (3,) if tier != "thorough" else (1, 3)
     for m in modes:
-        for st in (["truth", "displaced", "amp-on-bound"] if not slow else ["displaced"]):
+        sts = ["truth", "displaced", "amp-on-bound"] if not slow else ["displaced"]
+        if k == "cart" and any(g["periodic"]) and not slow:
+            sts = sts + ["outside-perturbed"]  # direction-dependent shape whose centre lies one period outside the box
+        for st in sts:
             out.append((pert, m, 1.0, st))
     return out
 
@@ -243,7 +246,7 @@ def prepare(case):
         else:
             cR = R * (0.55 + 0.15 * int(i) + 0.01 * case["variant"])
             cw = w * (0.6 + 0.35 * int(j))
-    elif state == "outside":
+    elif state in ("outside", "outside-perturbed"):
         L = geom.cart_lengths(g)
         cc = [x + (L[i] if g["periodic"][i] else 0.0) for i, x in enumerate(cc)]
     cls = getattr(dm, clsname)
@@ -258,6 +261,9 @@ def prepare(case):
             amps[0] = -1.0 if modes > 1 else 1.0
         elif state == "displaced":
             amps[0] = 0.05
+        elif state == "outside-perturbed":
+            amps[0] = 0.25
+            amps[-1] = -0.15 if modes > 1 else 0.25
         cand = cls(np.array(cc, float), cR, cw, amps)
     cand0 = cand.copy()
     lv = case["levels"]
@@ -363,7 +369,7 @@ def run_case(case, ctx):
             if g["periodic"][ax]:
                 lo = g["origin"][ax]
                 ctx.check("C04.wrapped", lo - 1e-12 <= out.position[ax] <= lo + L[ax] + 1e-12, {"axis": ax, "pos": out.position}, tags)
-        if state == "outside":
+        if state in ("outside", "outside-perturbed"):
             ctx.count("candidate-outside-box")
     elif kind == "cyl" and g["periodic_z"]:
         ctx.check("C04.wrapped", g["z"][0] - 1e-12 <= out.position[2] <= g["z"][1] + 1e-12, {"pos": out.position}, tags)
